@@ -180,7 +180,20 @@ impl GenState {
         }
     }
 
+    /// the reserved field of a request header (bytes 6-7, 'vbucket id') means nothing to this server: every now and then a
+    /// request carries a non-zero one (1 and 2 read as a status would be 'not found' / 'key exists')
     pub fn next_op(&mut self, rng: &mut Rng, p: &Profile) -> GenOp {
+        let mut o = self.next_op_inner(rng, p);
+        if let GenOp::Req(b) = &mut o {
+            if b.len() >= 24 && b[0] == 0x80 && rng.chance(1, 7) {
+                let v: u16 = *rng.pick(&[1u16, 2, 3, 0x81, 0x7777, 0xffff, 0x0100]);
+                b[6..8].copy_from_slice(&v.to_be_bytes());
+            }
+        }
+        o
+    }
+
+    fn next_op_inner(&mut self, rng: &mut Rng, p: &Profile) -> GenOp {
         // the second in which an item's life ends: a conditional store carrying a CAS, addressed to exactly that item
         // (the item must count as absent for it, whether or not anybody has looked at it since)
         if p.name == "C05" && rng.chance(1, 4) {
